@@ -8,7 +8,7 @@ use std::sync::atomic::Ordering;
 use std::sync::Arc;
 use tokio::sync::mpsc;
 
-const ADDRS: [&str; 3] = ["10.9.9.9", "10.255.8.255", "2001:db8::9"]; // the second one has octets at the top of the range
+const ADDRS: [&str; 4] = ["10.9.9.9", "10.255.8.255", "2001:db8::9", "::ffff:192.0.2.1"]; // the last one is an IPv6 address all the same; // the second one has octets at the top of the range
 
 pub fn run(cases: &[Vec<String>]) {
     for case in cases {
@@ -138,7 +138,8 @@ async fn run_case(case: Vec<String>) -> String {
 
     // the selection under test
     let u: Vec<&str> = case[5].split(':').collect();
-    let host = if u[1] == "2" { format!("[{}]", ADDRS[2]) } else { ADDRS[u[1].parse::<usize>().unwrap()].to_string() };
+    let ui = u[1].parse::<usize>().unwrap();
+    let host = if ui >= 2 { format!("[{}]", ADDRS[ui]) } else { ADDRS[ui].to_string() };
     let port = if u[2] == "-" { String::new() } else { format!(":{}", u[2]) };
     // an optional fourth field: URI parameters as they may accompany the target (transport=..., lr, user=phone)
     let uparams = match u.get(3) {
